@@ -200,7 +200,7 @@ func (c *ctx) alignedExtendedAck(kind string) {
 			stream = append(stream, xsens.NewMessage(xsens.MessageIdentifier(0x3e), c.payload(fill-2055-7))...)
 			payload := c.payload(256)
 			stream = append(stream, xsens.NewMessage(ack, payload)...)
-			stream = append(stream, c.smallFrame()...)
+			stream = append(stream, c.unrelatedFrame(ack)...)
 			ops := []cop{o, {kind: "rawmsg"}, {kind: "msgid"}, {kind: "receive"}, {kind: "rawmsg"}, {kind: "receive"}}
 			c.emitClient(kind, stream, nil, io.EOF, false, nil, ops)
 			c.count("buffer-aligned-extended-acks")
@@ -368,11 +368,11 @@ func init() {
 			idx := c.rng.Intn(len(cmdTable))
 			o, ack := c.command(idx)
 			var stream []byte
-			stream = append(stream, c.smallFrame()...)
+			stream = append(stream, c.unrelatedFrame(ack)...)
 			stream = append(stream, c.unrelatedFrame(ack)...)
 			stream = append(stream, xsens.NewMessage(ack, c.ackPayload(o.name))...)
-			stream = append(stream, c.smallFrame()...)
-			stream = append(stream, c.smallFrame()...)
+			stream = append(stream, c.unrelatedFrame(ack)...)
+			stream = append(stream, c.unrelatedFrame(ack)...)
 			ops := []cop{{kind: "receive"}, {kind: "rawmsg"}, o, {kind: "rawmsg"}, {kind: "msgid"}, {kind: "receive"}, {kind: "rawmsg"},
 				{kind: "receive"}, {kind: "rawmsg"}, {kind: "receive"}, o, {kind: "receive"}}
 			var sch []int
